@@ -5,6 +5,8 @@ dealer's genuine deal for it; hence a finished member outputs the coefficient-wi
 dealers' commitments and the sum of the dealers' polynomials at its own index.
 -/
 import DosModel.Proofs.DkgMember
+import DosModel.Model.DkgNet
+import DosModel.Proofs.Share
 
 set_option linter.unusedSectionVars false
 
@@ -12,15 +14,6 @@ namespace Dos.Dkg
 open Dos Dos.Vss
 
 variable {F G : Type} [Field F] [AddCommGroup G] [Module F G] [DecidableEq F] [DecidableEq G]
-
-/-- the honest configuration of a group: long-term keys and dealer polynomials of all members -/
-structure Cfg (F G : Type) where
-  g : G
-  longs : List F
-  polys : List (List F)
-
-def Cfg.n (c : Cfg F G) : Nat := c.longs.length
-def Cfg.pubs (c : Cfg F G) : List G := c.longs.map (fun x => x • c.g)
 
 /-- a genuine deal message: dealer `j`'s deal for some member `i'`, sealed by `j` -/
 def GenuineDeal (c : Cfg F G) (m : DkgDeal F G) : Prop :=
@@ -172,5 +165,163 @@ theorem finished_genuine (c : Cfg F G) (d : Gen F G) (ks : KeyShare F G) (hlen :
     obtain ⟨long, f', hf', hda⟩ := hat j hj
     rw [hf] at hf'; injection hf' with hf'; subst hf'
     simp [valAt, hda, valOf, honestDeal]
+
+/-! ### every generator state an honest run can reach -/
+
+/-- States of member `i`'s `DistKeyGenerator` reachable in a run in which every deal is genuine:
+`Deals()` on a fresh generator, then ANY sequence of `ProcessDeal` on genuine deals (any dealer, any
+addressee, repeated, in any order) and `ProcessResponse` on arbitrary responses. Every schedule of
+the networked protocol among honest members only produces such sequences. -/
+inductive HonestReach (c : Cfg F G) (i : Nat) : Gen F G → Prop
+  | init (long : F) (f ephs : List F) (d0 d1 : Gen F G) (ds : List (Nat × DkgDeal F G)) :
+      c.longs[i]? = some long → c.polys[i]? = some f → newGen c.g long c.pubs f = .ok d0 →
+      deals c.g d0 ephs = .ok (d1, ds) → HonestReach c i d1
+  | deal (d : Gen F G) (m : DkgDeal F G) : HonestReach c i d → GenuineDeal c m →
+      HonestReach c i (processDeal c.g d m).1
+  | resp (d : Gen F G) (m : DkgResp F G) : HonestReach c i d → HonestReach c i (processResponse c.g d m).1
+
+theorem findIndex_get (pub : G) : ∀ (l : List G) (k i : Nat), findIndex pub l k = some i → l[i - k]? = some pub
+  | [], k, i, h => by simp [findIndex] at h
+  | p :: ps, k, i, h => by
+    unfold findIndex at h
+    by_cases hp : p = pub
+    · simp only [hp, if_true, Option.some.injEq] at h; subst h; simp [hp]
+    · simp only [hp, if_false] at h
+      have := findIndex_get pub ps (k + 1) i h
+      have hlt := (findIndex_lt pub ps (k + 1) i h).1
+      have : i - k = (i - (k + 1)) + 1 := by omega
+      rw [this]; simpa using ‹ps[i - (k + 1)]? = some pub›
+
+theorem honestReach_inv (c : Cfg F G) (i : Nat) (hg : c.g ≠ 0) (hnd : c.pubs.Nodup) (d : Gen F G)
+    (h : HonestReach c i d) :
+    GoodGen c.g d ∧ StoredGenuine c d ∧ d.participants = c.pubs ∧ d.index = i := by
+  induction h with
+  | init long f ephs d0 d1 ds hlong hf hng hdl =>
+    obtain ⟨h0, hempty, hp, hl, hdf⟩ := newGen_good0 hng
+    obtain ⟨i1, _, i3, i4, i5, i6⟩ := deals_good c.g d0 d1 ephs ds h0 hempty hdl
+    have hidx : d0.index = i := by
+      have h1 := findIndex_get (d0.long • c.g) d0.participants 0 d0.index h0.idx
+      rw [hp, hl] at h1
+      simp only [Nat.sub_zero] at h1
+      have h2 : c.pubs[i]? = some (long • c.g) := by simp [Cfg.pubs, hlong]
+      have hlt1 : d0.index < c.pubs.length := by rw [← hp]; exact h0.lt
+      have hlt2 : i < c.pubs.length := by
+        rcases Nat.lt_or_ge i c.pubs.length with h | h
+        · exact h
+        · rw [List.getElem?_eq_none h] at h2; cases h2
+      rw [List.getElem?_eq_getElem hlt1] at h1
+      rw [List.getElem?_eq_getElem hlt2] at h2
+      injection h1 with h1; injection h2 with h2
+      exact hnd.getElem_inj_iff.1 (by rw [h1, h2])
+    refine ⟨i1, ?_, by rw [i5, hp], by rw [i3, hidx]⟩
+    -- the own deal is the only stored one, and it is genuine
+    unfold deals at hdl
+    simp only [hempty d0.index, Option.isSome_none, Bool.false_eq_true, if_false] at hdl
+    have hown : GenuineDeal c { index := d0.index, deal := ((encryptedDeals c.g d0.dealer ephs)[d0.index]?).join } := by
+      have hdealer : d0.dealer.long = long ∧ d0.dealer.vs = c.pubs ∧
+          d0.dealer.deals = (List.range c.pubs.length).map (fun k => honestDeal c.g long c.pubs f k) := by
+        unfold newGen at hng
+        split at hng
+        · cases hng
+        · split at hng
+          · cases hng
+          · rename_i dl hnd'
+            injection hng with hng; subst hng
+            unfold newDealer at hnd'
+            simp only at hnd'
+            split at hnd'
+            · cases hnd'
+            · injection hnd' with hnd'; subst hnd'; exact ⟨rfl, rfl, rfl⟩
+      obtain ⟨hd1, hd2, hd3⟩ := hdealer
+      have hlt : d0.index < c.pubs.length := by rw [← hp]; exact h0.lt
+      unfold encryptedDeals
+      rw [hd2, hd3]
+      simp only [List.getElem?_map, List.getElem?_range hlt, Option.map_some, Option.join_some, hd1]
+      rcases ephs[d0.index]? with _ | eph
+      · -- no ephemeral secret: no encrypted deal (a deal nobody can process)
+        refine ⟨i, c.pubs.length, long, 0, f, 0, hlong, hf, ?_⟩
+        simp [sealDeal, hidx]
+      · exact ⟨i, d0.index, long, eph, f, 0, hlong, hf, by simp [hidx]⟩
+    have hsg0 : StoredGenuine c d0 := by
+      intro j dl hj; simp [dealAt, hempty j] at hj
+    have hsg1 := processDeal_genuine c d0 _ h0 hsg0 hown
+    rcases hpd : processDeal c.g d0 { index := d0.index, deal := ((encryptedDeals c.g d0.dealer ephs)[d0.index]?).join } with ⟨d', res⟩
+    rw [hpd] at hdl hsg1
+    simp only at hdl hsg1
+    rcases res with err | resp
+    · cases hdl
+    · simp only at hdl
+      rcases hrr : resp.resp with _ | r
+      · rw [hrr] at hdl; cases hdl
+      · rw [hrr] at hdl
+        simp only at hdl
+        by_cases hs : r.status = true
+        · simp only [hs, if_true] at hdl
+          injection hdl with hdl; injection hdl with h1 _; subst h1
+          exact hsg1
+        · simp [hs] at hdl
+  | deal d m _ hm ih =>
+    obtain ⟨i1, i2, i3, i4⟩ := ih
+    have hgood := processDeal_good c.g d m i1
+    have hgen := processDeal_genuine c d m i1.toGoodGen0 i2 hm
+    rcases processDeal_slots c.g d m with he | ⟨_, _, w, hw⟩
+    · rw [he]; exact ⟨i1, i2, i3, i4⟩
+    · refine ⟨hgood, hgen, ?_, ?_⟩
+      · rw [hw]; exact (setVerifier_frame d m.index w).1.trans i3
+      · rw [hw]; exact (setVerifier_frame d m.index w).2.1.trans i4
+  | resp d m _ ih =>
+    obtain ⟨i1, i2, i3, i4⟩ := ih
+    have hfr := processResponse_frame c.g d m
+    exact ⟨processResponse_good c.g d m i1, processResponse_genuine c d m i1 i2, by rw [hfr.1, i3], by rw [hfr.2.1, i4]⟩
+
+/-! ### the secret behind the group key -/
+
+theorem headD_zipWith_add (p q : List F) (h : p.length = q.length) :
+    (List.zipWith (· + ·) p q).headD 0 = p.headD 0 + q.headD 0 := by
+  cases p with
+  | nil => cases q <;> simp_all
+  | cons a p => cases q with
+    | nil => simp at h
+    | cons b q => simp
+
+/-- the constant coefficient of the summed polynomial is the sum of the dealers' secrets -/
+theorem headD_vecSum (L : Nat) (fs : List (List F)) (h : ∀ f ∈ fs, f.length = L) :
+    (vecSum fs).headD 0 = (fs.map (fun f => f.headD 0)).sum := by
+  cases fs with
+  | nil => simp [vecSum]
+  | cons f rest =>
+    simp only [vecSum, List.map_cons, List.sum_cons]
+    have hf := h f (by simp)
+    have hr : ∀ y ∈ rest, y.length = L := fun y hy => h y (by simp [hy])
+    clear h
+    induction rest generalizing f with
+    | nil => simp
+    | cons y rest ih =>
+      simp only [List.foldl_cons, List.map_cons, List.sum_cons]
+      rw [ih (List.zipWith (· + ·) f y) (by simp [hf, hr y (by simp)]) (fun z hz => hr z (by simp [hz])),
+        headD_zipWith_add f y (by rw [hf, hr y (by simp)])]
+      ring
+
+theorem headD_commit (g : G) (f : List F) : (commit g f).headD 0 = f.headD 0 • g := by
+  cases f <;> simp [commit]
+
+/-- this model's Horner evaluation is the one of the model of share/poly.go -/
+theorem priEval_eq_share (f : List F) (i : Int) : priEval f i = Share.priEval f i := rfl
+
+/-- Lagrange recovery (C09.1, `Props/C09.lean` `recoverSecret_correct`, restated over the lemmas of
+`Proofs/Share.lean`): any slice whose usable entries are true shares of `f`, with `t` of them usable
+and the first `t` usable ones at distinct indices, recovers `f(0)`. -/
+theorem recoverSecret_of_shares (dp : Bool) (f : List F) (t n : Nat) (ht : 0 < t) (hf : f.length ≤ t)
+    (hc : Share.CharGt F n) (shares : List (Option (Share.PriShare F)))
+    (hval : ∀ iv ∈ shares.filterMap (Share.usablePri n), iv.2 = Share.priEval f iv.1)
+    (hcnt : t ≤ (shares.filterMap (Share.usablePri n)).length)
+    (hdist : (((shares.filterMap (Share.usablePri n)).take t).map (·.1)).Nodup) :
+    Share.recoverSecret dp shares t n = .ok (f.headD 0) := by
+  obtain ⟨hg, hlen⟩ := Share.xScalar_good f t n ht hc shares hval hcnt hdist
+  have hdeg : (Share.toPoly f).degree < (Share.xScalar shares t n).length := by
+    rw [hlen]; exact lt_of_lt_of_le (Share.degree_toPoly_lt f) (by exact_mod_cast hf)
+  unfold Share.recoverSecret
+  simp only [hlen, Nat.lt_irrefl, if_false]
+  rw [Share.secret_fold_good dp _ _ hg hdeg, Share.eval_zero_toPoly]
 
 end Dos.Dkg
